@@ -1,5 +1,6 @@
 import AC.Drv.C01
 import AC.Drv.C02
+import AC.Drv.C03
 import AC.Drv.C04
 import AC.Drv.C05
 import AC.Drv.C07
@@ -21,6 +22,7 @@ def dispatch (line : String) : String :=
     let r := match op with
       | "c01" => handleC01 f
       | "c02" => handleC02 f
+      | "c03" => handleC03 f
       | "c04" => handleC04 f
       | "c16" => handleC16 f
       | "c05" => handleC05 f
